@@ -214,15 +214,20 @@ func genC10(env *core.Env, emit func(core.Case)) {
 					go func() { time.Sleep(time.Duration(1+rep%5) * 100 * time.Microsecond); c.Mark("cancel"); cancel() }()
 				}
 				stuck := false
-				if c.blockW && stuckCount >= 3 {
+				if stuckCount >= 3 && (c.blockW || ord == "cancel-before-hello" || ord == "cancel-concurrent-with-hello") {
 					// three runs have already shown NewConn blocking for good: enough evidence, keep the run short
 					cancel()
 					continue
 				}
-				if c.blockW {
-					// NewConn must come back although the peer never reads what is written to it
+				// NewConn must always come back: every call runs under a watchdog (the peer never reads what
+				// is written to it in the blockW orderings; in the others a context that has ended must end it)
+				{
+					keys := ech.WithKeys(nil)
+					if ord == "cancel-after-return-then-retry-io" {
+						keys = ech.WithKeys(echKeys(rkey))
+					}
 					done := make(chan struct{})
-					go func() { conn, err = ech.NewConn(ctx, c, ech.WithKeys(nil)); close(done) }()
+					go func() { conn, err = ech.NewConn(ctx, c, keys); close(done) }()
 					select {
 					case <-done:
 					case <-time.After(2 * time.Second):
@@ -231,10 +236,6 @@ func genC10(env *core.Env, emit func(core.Case)) {
 						c.Close()
 						<-done
 					}
-				} else if ord == "cancel-after-return-then-retry-io" {
-					conn, err = ech.NewConn(ctx, c, ech.WithKeys(echKeys(rkey)))
-				} else {
-					conn, err = ech.NewConn(ctx, c, ech.WithKeys(nil))
 				}
 				elapsed := time.Since(t0)
 				if err == nil {
@@ -312,7 +313,7 @@ func genC10(env *core.Env, emit func(core.Case)) {
 					w = ioErr
 				}
 				if w == "" && stuck {
-					w = "NewConn was still blocked 2 s after its context had ended (writing the alert to a peer that does not read)"
+					w = "NewConn was still blocked 2 s after its context had ended"
 				}
 				if w == "" && (ord == "cancel-before-hello" || c.blockW) && (err == nil || elapsed > 2*time.Second) {
 					w = fmt.Sprintf("context cancelled while NewConn was blocked: err=%v after %v", err, elapsed)
